@@ -377,6 +377,7 @@ class Checker:
         self.nontrivial = set()
         self.out_of_domain = 0          # requests not consistent with the bounds
         self.undecided = 0
+        self.cut_off = 0
         self.ambiguous = 0              # bound checks on which the readings of `within` disagree
         self.exceptions = {}
         self.violations = {}
@@ -1078,9 +1079,14 @@ def synthetic_inputs(tier, seed):
 # ----------------------------------------------------------------------------------------------------------------------
 # generator-driven part
 
-GEN_SEEDS = {'quick': {'kotlin': [0, 1, 2, 3, 4, 5], 'java': [0, 1, 2, 3, 4, 5], 'scala': [0, 1, 2, 3], 'groovy': [0]},
-             'thorough': {'kotlin': list(range(80)), 'java': list(range(80)), 'scala': list(range(60)),
-                          'groovy': list(range(20))}}
+GEN_SEEDS = {'quick': {'kotlin': list(range(8)), 'java': list(range(8)), 'scala': list(range(6)), 'groovy': list(range(4))},
+             'thorough': {'kotlin': list(range(80)), 'java': list(range(80)), 'scala': list(range(80)),
+                          'groovy': list(range(40))}}
+WORK_BUDGET = 400000     # objects deep-copied by src.ir.types per program before the generation is cut off
+
+
+class BudgetExceeded(BaseException):
+    pass
 
 
 def generator_inputs(tier, seed):
@@ -1096,7 +1102,11 @@ def generator_inputs(tier, seed):
 
 
 def run_generator(E, chk, inp):
-    """generate one program (and run the type-overwriting mutation on it) with the wrappers installed"""
+    """generate one program (and run the type-overwriting mutation on it) with the wrappers installed.  Must run in a
+    process that has not generated anything before: the generator keeps state across programs (the same seed gives a
+    different program after another one), so the driver forks a fresh child per program.  A deterministic work guard
+    (objects deep-copied by src.ir.types) cuts off the rare programs whose generation takes minutes."""
+    import copy
     import importlib
     gen = importlib.import_module('src.generators.generator')
     E.cfg.dis.use_site_variance, E.cfg.dis.use_site_contravariance = inp['dis']
@@ -1106,14 +1116,31 @@ def run_generator(E, chk, inp):
     chk.ref = Ref(E)                 # class names are per program
     old = sys.getrecursionlimit()
     sys.setrecursionlimit(max(old, 3000))
+    work = [0]
+    real_dc = copy.deepcopy
+
+    def dc(x, memo=None):
+        memo = {} if memo is None else memo
+        r = real_dc(x, memo)
+        work[0] += len(memo)
+        if work[0] > WORK_BUDGET:
+            raise BudgetExceeded()
+        return r
+    E.tp.deepcopy = dc
     try:
         def go():
             p = gen.Generator(language=inp['language']).generate()
             tov = importlib.import_module('src.transformations.type_overwriting')
             t = tov.TypeOverwriting(p, inp['language'], None, {})
             t.transform()
-        return chk.guarded(go)
+        try:
+            return chk.guarded(go)
+        except BudgetExceeded:
+            chk.depth = 0
+            chk.cut_off += 1
+            return False
     finally:
+        E.tp.deepcopy = real_dc
         sys.setrecursionlimit(old)
         E.cfg.dis.use_site_variance, E.cfg.dis.use_site_contravariance = False, False
 
@@ -1148,23 +1175,27 @@ RULE = (
     'switches, pool).')
 
 
-def _work(tier, seed, stop_first, only, part, parts):
-    """evaluate the inputs with index = part (mod parts); returns a mergeable partial result"""
+def _partial(chk, counts, first, seconds):
+    return dict(evaluations=chk.evaluations, nontrivial=chk.nontrivial, samples=chk.samples, violations=chk.violations,
+                first=first, counts=counts, calls=chk.calls_by_api, out_of_domain=chk.out_of_domain,
+                undecided=chk.undecided, ambiguous=chk.ambiguous, cut_off=chk.cut_off, stats=chk.stats,
+                exceptions=chk.exceptions, seconds=seconds)
+
+
+def _work(task):
+    """one task in a freshly forked child: ('synthetic', tier, seed, stop_first, part, parts) evaluates the synthetic
+    inputs with index = part (mod parts); ('generator', index, input) one program"""
     E = env()
     chk = Checker(E)
     chk.install()
     counts = {'synthetic': 0, 'generator_programs': 0}
     first = {}                        # check name -> global index of the input on which it was first seen
     t0 = time.time()
-    t1 = t0
-
-    def note(idx):
-        for k in chk.violations:
-            first.setdefault(k, idx)
     try:
-        worlds = {'kotlin': World(E, 'kotlin'), 'java': World(E, 'java')}
-        idx = -1
-        if only in (None, 'synthetic'):
+        if task[0] == 'synthetic':
+            _, tier, seed, stop_first, part, parts = task
+            worlds = {'kotlin': World(E, 'kotlin'), 'java': World(E, 'java')}
+            idx = -1
             for inp in synthetic_inputs(tier, seed):
                 idx += 1
                 if idx % parts != part:
@@ -1173,54 +1204,56 @@ def _work(tier, seed, stop_first, only, part, parts):
                 if len(chk.ref._sub) > 200000:
                     chk.ref._sub.clear()
                 run_input(E, chk, worlds, inp)
-                if chk.violations:
-                    note(idx)
+                if len(first) != len(chk.violations):
+                    for k in chk.violations:
+                        first.setdefault(k, idx)
                     if stop_first:
                         break
-        t1 = time.time()
-        idx = 10 ** 9
-        if only in (None, 'generator') and not (stop_first and chk.violations):
-            for inp in generator_inputs(tier, seed):
-                idx += 1
-                if idx % parts != part:
-                    continue
-                counts['generator_programs'] += 1
-                run_generator(E, chk, inp)
-                if chk.violations:
-                    note(idx)
-                    if stop_first:
-                        break
+        else:
+            _, idx, inp = task
+            counts['generator_programs'] += 1
+            run_generator(E, chk, inp)
+            for k in chk.violations:
+                first.setdefault(k, 10 ** 9 + idx)
     finally:
         chk.uninstall()
-    return dict(evaluations=chk.evaluations, nontrivial=chk.nontrivial, samples=chk.samples, violations=chk.violations,
-                first=first, counts=counts, calls=chk.calls_by_api, out_of_domain=chk.out_of_domain,
-                undecided=chk.undecided, ambiguous=chk.ambiguous, stats=chk.stats, exceptions=chk.exceptions,
-                seconds=(t1 - t0, time.time() - t1))
-
-
-def _work_star(a):
-    return _work(*a)
+    return _partial(chk, counts, first, (task[0], time.time() - t0))
 
 
 def run(tier, seed, stop_first=False, only=None, workers=None):
-    """quick: one process.  thorough: the input list is dealt round-robin to `workers` forked processes
-    (VERIF_WORKERS, default 12, at most 16); the merged result does not depend on the number of workers."""
+    """Every task runs in a freshly forked child of this (pristine, nothing-generated-yet) process: the synthetic input
+    list is dealt round-robin to `workers` tasks, each generator program is a task of its own.  The merged result does
+    not depend on the number of workers (VERIF_WORKERS; default 4 for quick, 12 for thorough, at most 16)."""
     env()
     if workers is None:
-        workers = 1 if (tier == 'quick' or stop_first) else max(1, min(16, int(os.environ.get('VERIF_WORKERS', '12'))))
-    if workers == 1:
-        parts = [_work(tier, seed, stop_first, only, 0, 1)]
-    else:
-        import multiprocessing
-        with multiprocessing.get_context('fork').Pool(workers) as pool:
-            parts = pool.map(_work_star, [(tier, seed, stop_first, only, k, workers) for k in range(workers)])
+        workers = max(1, min(16, int(os.environ.get('VERIF_WORKERS', '4' if tier == 'quick' else '12'))))
+    tasks = []
+    if only in (None, 'generator') and not stop_first:
+        tasks += [('generator', i, inp) for i, inp in enumerate(generator_inputs(tier, seed))]
+    if only in (None, 'synthetic'):
+        tasks += [('synthetic', tier, seed, stop_first, k, workers) for k in range(workers)]
+    if only in (None, 'generator') and stop_first:
+        tasks += [('generator', i, inp) for i, inp in enumerate(generator_inputs(tier, seed))]
+    import multiprocessing
+    parts = []
+    t0 = time.time()
+    pool = multiprocessing.get_context('fork').Pool(workers, maxtasksperchild=1)
+    try:
+        for r in (pool.imap(_work, tasks) if stop_first else pool.imap_unordered(_work, tasks)):
+            parts.append(r)
+            if stop_first and r['violations']:
+                break
+    finally:
+        pool.terminate()
+        pool.join()
     nontrivial = set()
     viol = {}
     exceptions = {}
-    tot = dict(evaluations=0, out_of_domain=0, undecided=0, ambiguous=0)
+    tot = dict(evaluations=0, out_of_domain=0, undecided=0, ambiguous=0, cut_off=0)
     counts = {'synthetic': 0, 'generator_programs': 0}
     calls = {'itc': 0, 'ipf': 0, 'ctva': 0}
     stats = {}
+    cpu = {'synthetic': 0.0, 'generator': 0.0}
     for p in parts:
         nontrivial |= p['nontrivial']
         for k in tot:
@@ -1237,15 +1270,16 @@ def run(tier, seed, stop_first=False, only=None, workers=None):
         for k, v in p['exceptions'].items():
             e = exceptions.setdefault(k, dict(count=0, message=v['message'], first_input=v['first_input']))
             e['count'] += v['count']
-    samples = [x for p in parts for x in p['samples']][:4]
+        cpu[p['seconds'][0]] += p['seconds'][1]
+    samples = sorted((x for p in parts for x in p['samples']), key=repr)[:4]
     return dict(evaluations=tot['evaluations'], distinct_nontrivial=len(nontrivial), rule=RULE, samples=samples,
                 violations=[v for _, v in sorted(viol.values(), key=lambda x: x[0])], exhaustive=False,
                 inputs=counts, calls_by_entry_point=calls, out_of_domain=tot['out_of_domain'],
-                undecided=tot['undecided'], ambiguous=tot['ambiguous'], stats=stats,
-                exceptions={k: exceptions[k] for k in sorted(exceptions)},
+                undecided=tot['undecided'], ambiguous=tot['ambiguous'], generator_programs_cut_off=tot['cut_off'],
+                stats=stats, exceptions={k: exceptions[k] for k in sorted(exceptions)},
                 generator_seeds={k: len(v) for k, v in GEN_SEEDS[tier].items()}, workers=workers,
-                seconds=dict(synthetic=round(max(p['seconds'][0] for p in parts), 1),
-                             generator=round(max(p['seconds'][1] for p in parts), 1)))
+                seconds=dict(wall=round(time.time() - t0, 1), synthetic_sum=round(cpu['synthetic'], 1),
+                             generator_sum=round(cpu['generator'], 1)))
 
 
 def replay(fi):
